@@ -83,7 +83,7 @@ def generate(R, tier):
         m = R.choice(["pass", "same", "first", "last"])
         if m != "pass":
             script = [{"method": "choice", "mode": m, "index": R.randrange(n)}]
-    return {"algo": name, "n": n, "k": k, "ebv": ebv, "con": R.random() < 0.35, "ngen": R.randint(1, 4), "pop": R.choice([4, 6, 8, 12]),
+    return {"algo": name, "n": n, "k": k, "ebv": ebv, "con": R.random() < 0.35, "eq": (name in ("hc", "sorting_hc", "ga.subset", "ga.real") and R.random() < 0.35), "ngen": R.randint(1, 4), "pop": R.choice([4, 6, 8, 12]),
             "seed": R.randrange(1 << 31), "mode": mode, "rngseed": R.randrange(1 << 30), "script": script, "entropy_world": R.randrange(1000)}
 
 
@@ -95,6 +95,10 @@ def shrink(sc):
     if sc["con"]:
         c = copy.deepcopy(sc)
         c["con"] = False
+        yield c
+    if sc.get("eq"):
+        c = copy.deepcopy(sc)
+        c["eq"] = False
         yield c
     for key, small in (("ngen", 1), ("pop", 4)):
         if sc[key] > small:
@@ -169,7 +173,7 @@ def execute(sc):
     name = sc["algo"]
     cls, kind, nobj, has_rng, ga = ALGOS[name]
     ebv = numpy.array(sc["ebv"], dtype=float)
-    prob = world.ebv_problem(kind, ebv, nobj=nobj, ndecn=sc["k"] if kind == "subset" else None, con=sc["con"])
+    prob = world.ebv_problem(kind, ebv, nobj=nobj, ndecn=sc["k"] if kind == "subset" else None, con=sc["con"], eq=sc.get("eq", False))
     V, log, faults, probes = [], [], {}, {}
     C = cls.__name__ + ".minimize"
     kw = {}
@@ -193,7 +197,7 @@ def execute(sc):
             if orig is not None:
                 setattr(mod, "minimize", orig)
     except Exception as e:
-        if sc["con"] and record:
+        if (sc["con"] or sc.get("eq")) and record:
             # pymoo reports no solution (X is None) when the final population holds no feasible member; C06 speaks of
             # returned solutions, so a run that returns none is recorded, not judged
             feas = False
@@ -256,7 +260,7 @@ def execute(sc):
                                   (i, F[i].tolist(), cvs[i], j, F[j].tolist(), cvs[j])))
                     return _out(sc, V, log, faults, probes, True, g)
     # exhaustive sorting optimiser: brute-force optimum of a separable single-objective problem
-    if name == "sorting" and not sc["con"] and sc["n"] <= 10:
+    if name == "sorting" and not sc["con"] and not sc.get("eq") and sc["n"] <= 10:
         best = min(float(prob.evalfn(numpy.array(c))[0].sum()) for c in itertools.combinations(range(sc["n"]), sc["k"]))
         got = float(F[0].sum())
         if got > best + 1e-12 * (1 + abs(best)):
@@ -285,7 +289,7 @@ def execute(sc):
 
 
 def _out(sc, V, log, faults, probes, ran, g):
-    trace = "%s|con=%s|%s|%s|n%s|k%s" % (sc["algo"], sc["con"], sc["mode"], [r["mode"] for r in sc["script"]], "S" if sc["n"] <= 5 else "L",
+    trace = "%s|con=%s%s|%s|%s|n%s|k%s" % (sc["algo"], sc["con"], "+eq" if sc.get("eq") else "", sc["mode"], [r["mode"] for r in sc["script"]], "S" if sc["n"] <= 5 else "L",
                                          "=n" if sc["k"] == sc["n"] else ("1" if sc["k"] == 1 else "m"))
     return {"violations": V, "log": log, "trace": trace, "nontrivial": ran, "faults": faults, "probes": probes,
             "sim": {"optimiser_runs": 1, "pymoo_generations": probes.get("generations_observed", 0)}}
